@@ -214,6 +214,7 @@ class Folder:
         self.prog = prog
         self.keep = set(keep) | set(ANCHOR_NAMES)  # callees the rules bind to by name: never expanded
         self.max_depth = max_depth
+        self.mark_raise = False  # keep `if c: raise` guards as `RAISE if c else ...` instead of dropping them
 
     # -- helper resolution (same policy as engine.normalize: private, not an anchored function, not overridden)
     def _helper(self, fi: FuncInfo, call: ast.Call, nested: dict[str, FuncNode]) -> FuncInfo | None:
@@ -330,6 +331,11 @@ class Folder:
                     r1 = self._block(rest, e1, fi, nested, depth)
                 if r2 is None:
                     r2 = self._block(rest, e2, fi, nested, depth)
+                if self.mark_raise and (r1 is RAISE) != (r2 is RAISE):
+                    mark = ast.Name(id="RAISE", ctx=ast.Load())
+                    other = r2 if r1 is RAISE else r1
+                    other = ast.Constant(None) if other is None else other
+                    return ast.IfExp(test=t, body=mark if r1 is RAISE else other, orelse=other if r1 is RAISE else mark)
                 if r1 is RAISE:
                     return r2
                 if r2 is RAISE:
@@ -606,3 +612,35 @@ def path_avoiding_edges(cfg: CFG, srcs: Iterable[int], dsts: Iterable[int], edge
         if cfg.path(s, dst, avoid=avoid, edge_ok=ok) is not None:
             return True
     return False
+
+
+def emptiness(c: Any) -> tuple[str, bool] | None:
+    """(collection text, is-empty?) if the canonical atom states the truthiness / non-emptiness of something."""
+    empty = False
+    if isinstance(c, tuple) and c and c[0] == "not":
+        empty, c = True, c[1]
+    if isinstance(c, tuple) and len(c) == 2 and c[0] in ("truthy", "nonempty") and isinstance(c[1], str):
+        return c[1], empty
+    return None
+
+
+def size_subject(c: Any) -> str | None:
+    """X if the canonical atom compares `len(X)` with something (any size test other than emptiness)."""
+    if isinstance(c, tuple) and c and c[0] == "not":
+        return size_subject(c[1])
+    if not isinstance(c, tuple):
+        return None
+    for part in c[1:]:
+        for x in (part if isinstance(part, frozenset) else [part]):
+            if isinstance(x, str) and x.startswith("len(") and x.endswith(")") and x.count("(") == x.count(")"):
+                return x[4:-1]
+    return None
+
+
+def literals(test: ast.AST, neg: bool = False) -> list[tuple[ast.AST, bool]]:
+    """(expression, holds?) for the literals that certainly hold when `test` (negated if `neg`) holds."""
+    if isinstance(test, ast.UnaryOp) and isinstance(test.op, ast.Not):
+        return literals(test.operand, not neg)
+    if isinstance(test, ast.BoolOp) and isinstance(test.op, ast.And) != neg:
+        return [x for v in test.values for x in literals(v, neg)]
+    return [(test, not neg)]
